@@ -83,6 +83,7 @@ class FsAudit:
 
     def __init__(self):
         self.events = []
+        self.details = []        # aligned with events: {"flags": int} for opens
         self.active = False
         self.veto = None
         self.installed = False
@@ -118,6 +119,7 @@ class FsAudit:
             except Exception:
                 norm.append(repr(p))
         self.events.append((ev, norm))
+        self.details.append(extra)
         if self.veto is not None:
             self.active = False
             try:
@@ -131,6 +133,7 @@ class FsAudit:
     def start(self, veto=None):
         self.install()
         self.events = []
+        self.details = []
         self.vetoed = []
         self.veto = veto
         self.active = True
